@@ -32,11 +32,24 @@ type Event struct {
 	Sym string `json:"sym"`
 	I   int    `json:"i"`
 	J   int    `json:"j"`
-	VG  int    `json:"vg"`
+	VG  int    `json:"vg"` // goroutine tag of the value; 0 absent; -1 unknown probe value
+	C   int    `json:"c"`  // 0 own context, 1/2 child contexts of the type probe
+}
+
+// emptyKind tells which goroutines evaluate an empty list (kind "empty" of SplatConc).
+// forced-schedule runs (3 goroutines): 2 and 3; free runs (4 goroutines): the even ones.
+func emptyKind(g, nG int) bool {
+	if nG == 3 {
+		return g != 1
+	}
+	return g%2 == 0
 }
 
 // value tagging: goroutine g evaluates ll = [[100g+11], [100g+21]]
-func scopeFor(g int) map[string]cty.Value {
+func scopeFor(g int, empty bool) map[string]cty.Value {
+	if empty {
+		return map[string]cty.Value{"ll": cty.ListValEmpty(cty.List(cty.Number))}
+	}
 	n := func(i, j int) cty.Value { return cty.NumberIntVal(int64(100*g + 10*i + j)) }
 	return map[string]cty.Value{"ll": cty.ListVal([]cty.Value{cty.ListVal([]cty.Value{n(1, 1)}), cty.ListVal([]cty.Value{n(2, 1)})})}
 }
@@ -47,7 +60,10 @@ func tagOf(v any) (g, i, j int, ok bool) {
 		return 0, 0, 0, false
 	}
 	val, _ = val.Unmark()
-	if !val.IsKnown() || val.IsNull() {
+	if !val.IsKnown() {
+		return -1, 0, 0, true // the type probe's unknown value
+	}
+	if val.IsNull() {
 		return 0, 0, 0, false
 	}
 	if val.Type().IsListType() || val.Type().IsTupleType() {
@@ -83,6 +99,10 @@ type session struct {
 	pmu     sync.Mutex
 	doGate  bool
 	doPert  bool
+	// the operation currently between its pre-lock and under-lock hooks
+	inflight   int
+	inflightAt time.Time
+	gateLoose  bool
 }
 
 func newSession() (*session, error) {
@@ -119,7 +139,14 @@ func (s *session) hook(ev string, obj, ctx, arg any) {
 		return
 	}
 	c, _ := ctx.(*hcl.EvalContext)
-	g := s.ctxOf[c] // read-only after setup
+	g, depth := 0, 0
+	for cc := c; cc != nil && depth <= 2; cc = cc.Parent() {
+		if gg := s.ctxOf[cc]; gg != 0 { // read-only after setup
+			g = gg
+			break
+		}
+		depth++
+	}
 	if g == 0 {
 		return
 	}
@@ -135,26 +162,43 @@ func (s *session) hook(ev string, obj, ctx, arg any) {
 		if s.doGate {
 			s.mu.Lock()
 			deadline := time.Now().Add(3 * time.Second)
-			for s.pos < len(s.sched) && s.sched[s.pos] != g && s.gateErr == "" {
+			for s.gateErr == "" {
+				if s.pos >= len(s.sched) {
+					break
+				}
+				// the previous operation is complete when its under-lock hook has fired; if the
+				// (possibly modified) code never reaches that hook, give it a moment and go on
+				prevDone := s.inflight == 0 || time.Since(s.inflightAt) > 5*time.Millisecond
+				if s.inflight != 0 && prevDone {
+					s.gateLoose = true
+				}
+				if s.sched[s.pos] == g && prevDone {
+					break
+				}
 				if time.Now().After(deadline) {
 					s.gateErr = fmt.Sprintf("goroutine %d waited for its turn at schedule position %d (next is %d)", g, s.pos, s.sched[s.pos])
 					s.cond.Broadcast()
 					break
 				}
-				waitWithTimeout(s.cond, 50*time.Millisecond)
+				waitWithTimeout(s.cond, 2*time.Millisecond)
+			}
+			if s.pos < len(s.sched) && s.gateErr == "" {
+				s.pos++
+				s.inflight = g
+				s.inflightAt = time.Now()
 			}
 			s.mu.Unlock()
 		}
 		return
 	}
-	e := Event{Ev: strings.TrimPrefix(ev, "anon."), G: g, Sym: sym}
+	e := Event{Ev: strings.TrimPrefix(ev, "anon."), G: g, Sym: sym, C: depth}
 	if vg, i, j, ok := tagOf(arg); ok {
 		e.VG, e.I, e.J = vg, i, j
 	}
 	s.mu.Lock()
 	s.events = append(s.events, e)
-	if s.doGate && s.pos < len(s.sched) {
-		s.pos++
+	if s.doGate && s.inflight == g {
+		s.inflight = 0
 		s.cond.Broadcast()
 	}
 	s.mu.Unlock()
@@ -176,9 +220,9 @@ func (s *session) run(nG int, sharedParent bool) ([]cty.Value, []hcl.Diagnostics
 		var c *hcl.EvalContext
 		if sharedParent {
 			c = parent.NewChild()
-			c.Variables = scopeFor(g)
+			c.Variables = scopeFor(g, emptyKind(g, nG))
 		} else {
-			c = &hcl.EvalContext{Variables: scopeFor(g)}
+			c = &hcl.EvalContext{Variables: scopeFor(g, emptyKind(g, nG))}
 		}
 		ctxs[g] = c
 		s.ctxOf[c] = g
@@ -211,15 +255,15 @@ func checkRun(c *core.Check, what string, nG int, vals []cty.Value, diags []hcl.
 			c.Broken("reference parse failed")
 			return false
 		}
-		want, wd := ref.Value(&hcl.EvalContext{Variables: scopeFor(g)})
+		want, wd := ref.Value(&hcl.EvalContext{Variables: scopeFor(g, emptyKind(g, nG))})
 		if diags[g].HasErrors() != wd.HasErrors() || !vals[g].RawEquals(want) {
 			c.Violation("concurrent-result-differs", fmt.Sprintf("%s: goroutine %d evaluated %q to %s (errors=%v); alone it gives %s", what, g, nestedSrc, e1.Describe(vals[g]), diags[g].HasErrors(), e1.Describe(want)), vec)
 			return false
 		}
 	}
 	for _, e := range events {
-		if e.Ev == "read" && e.VG != e.G {
-			c.Violation("read-foreign-value", fmt.Sprintf("%s: goroutine %d read the value of symbol %s set by goroutine %d (0 = absent)", what, e.G, e.Sym, e.VG), vec)
+		if e.Ev == "read" && ((e.C == 0 && e.VG != e.G) || (e.C != 0 && e.VG != -1)) {
+			c.Violation("read-not-own-value", fmt.Sprintf("%s: goroutine %d (context level %d) read symbol %s and got the value tagged %d (0 = absent, -1 = its probe value) instead of the value it had set", what, e.G, e.C, e.Sym, e.VG), vec)
 			return false
 		}
 	}
@@ -284,18 +328,22 @@ func Run(c *core.Check) {
 	var allEvents []Event
 	for k, sc := range scheds {
 		s.mu.Lock()
-		s.events, s.sched, s.pos, s.gateErr = nil, sc, 0, ""
+		s.events, s.sched, s.pos, s.gateErr, s.inflight, s.gateLoose = nil, sc, 0, "", 0, false
 		s.mu.Unlock()
 		s.doGate, s.doPert = true, false
 		vals, diags := s.run(3, k%2 == 0)
 		c.Count("traces_validated", 1)
 		c.Count("evaluations", 3)
+		vec := map[string]any{"schedule": sc, "kind": "forced-schedule"}
+		if !checkRun(c, "forced TLC schedule", 3, vals, diags, s.events, vec) {
+			return
+		}
 		if s.gateErr != "" {
 			c.Broken("schedule %d could not be forced: %s", k, s.gateErr)
 			return
 		}
-		vec := map[string]any{"schedule": sc, "kind": "forced-schedule"}
-		if !checkRun(c, "forced TLC schedule", 3, vals, diags, s.events, vec) {
+		if s.gateLoose {
+			c.Broken("schedule %d: an operation never reached its under-lock hook (hooks bypassed by a code change?)", k)
 			return
 		}
 		// the real run must have followed the TLC behaviour exactly
@@ -353,7 +401,7 @@ func Run(c *core.Check) {
 			b.Write(j)
 			b.WriteByte('\n')
 		}
-		st, err := core.TLCRun{Module: "MC_Trace_Splat", Consts: map[string]string{}, ConstSubst: map[string]string{"G": g, "Ctx": g + "Ctx"},
+		st, err := core.TLCRun{Module: "MC_Trace_Splat", Consts: map[string]string{}, ConstSubst: map[string]string{"G": g, "Ctx": g + "Ctx", "Kind": g + "Kind"},
 			NoDump: true, Workers: 1, Timeout: 15 * time.Minute, Files: map[string][]byte{"trace_splat.ndjson": b.Bytes()}}.Stream(1, func(core.State) {})
 		c.AddTLC(st)
 		if err != nil || st.ErrorKind != "" || strings.Contains(st.Output, "Postcondition") && strings.Contains(st.Output, "violated") || !strings.Contains(st.Output, "Model checking completed") {
@@ -385,7 +433,7 @@ func Run(c *core.Check) {
 		}
 		bad := append([]Event{}, allEvents[:first]...)
 		for i := range bad {
-			if bad[i].Ev == "read" {
+			if bad[i].Ev == "read" && bad[i].C == 0 {
 				bad[i].VG = bad[i].VG%3 + 1
 				break
 			}
@@ -396,7 +444,7 @@ func Run(c *core.Check) {
 			b.Write(j)
 			b.WriteByte('\n')
 		}
-		st, _ := core.TLCRun{Module: "MC_Trace_Splat", ConstSubst: map[string]string{"G": "TG3", "Ctx": "TG3Ctx"},
+		st, _ := core.TLCRun{Module: "MC_Trace_Splat", ConstSubst: map[string]string{"G": "TG3", "Ctx": "TG3Ctx", "Kind": "TG3Kind"},
 			NoDump: true, Workers: 1, Timeout: 5 * time.Minute, Files: map[string][]byte{"trace_splat.ndjson": b.Bytes()}}.Stream(1, func(core.State) {})
 		rejected := st.ErrorKind != "" || strings.Contains(st.Output, "violated") || !strings.Contains(st.Output, "Model checking completed. No error")
 		if !rejected {
